@@ -91,6 +91,7 @@ class ServerNode:
         self.fail = {}               # meth -> "all" | set of 0-based occurrence numbers  (injected RemoteException)
         self.dead_for = {}           # meth -> "all" | set  (DeadReferenceError for that call only)
         self.disconnect_after = None  # total delivered calls after which the connection drops
+        self.fail_after = {}         # meth -> "all" | set: the call IS executed, but the client sees a connection error instead of the answer
         self.transform = None        # fn(server, msg, result) -> result   (lying server)
         self.before = None           # fn(server, msg) hook executed just before the call
         self.canaries = {}
@@ -145,6 +146,9 @@ class ServerNode:
             if self.transform:
                 res = self.transform(self, m, res)
             out = ("ok", self.wrap_out(res, m.client))
+            spec = self.fail_after.get(m.meth)
+            if spec == "all" or (spec and n in spec):
+                out = ("err", Failure(DeadReferenceError("connection lost before the answer to %s arrived" % m.meth)))
         if self.disconnect_after is not None and self.total_calls >= self.disconnect_after:
             self.disconnect_after = None
             self.disconnect()
